@@ -38,6 +38,8 @@ def act_text(a):
             return 'I send event %s\n%s' % (a[1], table(a[2]))
         return 'I send event %s' % a[1]
     if k == 'wait':
+        if isinstance(a[1], float):
+            return 'I wait %s seconds' % ('%.7f' % a[1]).rstrip('0')
         return 'I wait %d second%s' % (a[1], '' if a[1] == 1 else 's')
     if k == 'repeat':
         return 'I repeat "%s" %d times' % (act_text(a[1]), a[2])
@@ -283,6 +285,27 @@ def doc_patterns():
     return pats
 
 
+FINE_WAITS = [0.1234564, 0.0000004, 2.0000004, 0.5, 0.0000015]
+
+
+def counting_template(rnd):
+    """one `when` step that takes more than a thousand macro steps to come to rest: it is run to the end, and the
+    assertions that follow are about all of it"""
+    from sismic.model import BasicState, CompoundState, Statechart, Transition
+    n = rnd.choice([1100, 1500, 2100])
+    sc = Statechart('counting', preamble='n = 0\nx = 0\ny = 0')
+    sc.add_state(CompoundState('r', initial='idle'), None)
+    for s in ('idle', 'loop', 'finished'):
+        sc.add_state(BasicState(s), 'r')
+    sc.add_transition(Transition('idle', 'loop', event='go'))
+    sc.add_transition(Transition('loop', 'loop', guard='n < %d' % n, action='n = n + 1'))
+    sc.add_transition(Transition('loop', 'finished', guard='n >= %d' % n, action="send('out', v=n)"))
+    steps = [['when', ['send', 'go', []]],
+             ['then', ['active', 'finished']], ['then', ['var_eq', 'n', n]], ['then', ['fired', 'out', []]],
+             ['then', ['not_active', 'loop']], ['then', ['var_ne', 'n', 1000]], ['then', ['entered', 'finished']]]
+    return sc, [steps]
+
+
 def history_template(rnd):
     """a compound state with a history state that is left, resumed through the history state, advanced and
     left again — inside one block of when steps; assertions about which of its children were entered"""
@@ -382,6 +405,10 @@ class C19(Prop):
         template = None
         if rnd.random() < 0.1:
             sc, template = history_template(rnd)
+        elif rnd.random() < 0.015:
+            sc, template = counting_template(rnd)
+            payload = {'kind': 'bdd', 'chart': ChartEnc(sc).json, 'scenarios': template, 'no_model': True}
+            return Case(payload, {'chart': sc}, model_ok=False)
         under = rnd.random() < 0.25
         if under:
             # events sent with a parameter whose name starts with an underscore (`_k`): a parameter like any other
@@ -394,6 +421,8 @@ class C19(Prop):
             # a variable that is defined and holds None (`nil`), and one that is reset to None now and then
             root = sc.state_for(sc.root)
             root.on_entry = ((root.on_entry + '\n') if root.on_entry else '') + 'nil = None'
+        # (sometimes) waits of a fraction of a second, down to parts of a microsecond: the clock advances by what was waited
+        fine = rnd.random() < 0.05
         enc = ChartEnc(sc)
         names = list(sc.states)
         scenarios = list(template or [])
@@ -418,6 +447,8 @@ class C19(Prop):
                             ps = [['v', rnd.randint(0, 4)], ['b', rnd.random() < 0.5]]
                     elif r < 0.65:
                         a = ['wait', rnd.randint(1, 4)]
+                        if fine and rnd.random() < 0.7:
+                            a = ['wait', rnd.choice(FINE_WAITS)]
                     elif r < 0.8:
                         a = ['nothing']
                     elif r < 0.9 and scenarios:
@@ -475,13 +506,19 @@ class C19(Prop):
                     elif k in ('expr', 'not_expr'):
                         src = rnd.choice(['x > 1', 'x == y', 'x % 2 == 0', 'v0 or v1', "active('%s')" % rnd.choice(names),
                                           'time >= 2', 'x + y < 4', 'nosuchvar > 1'])
+                        if fine and rnd.random() < 0.6:
+                            w = rnd.choice(FINE_WAITS)
+                            src = rnd.choice(['time >= %s' % repr(w), 'time == %s' % repr(w), 'time < %s' % repr(w),
+                                              'time * 10000000 % 10 >= 1'])
                         a = [k, enc_code(src, 'eval')[0]]
                     else:
                         a = [k]
                     steps.append(['then', a])
             scenarios.append(steps)
         payload = {'kind': 'bdd', 'chart': enc.json, 'scenarios': scenarios}
-        return Case(payload, {'chart': sc}, model_ok=enc.supported)
+        if fine:
+            payload['no_model'] = True
+        return Case(payload, {'chart': sc}, model_ok=enc.supported and not fine)
 
     def rebuild(self, payload):
         sc = chart_from_json(payload['chart'])
